@@ -20,6 +20,9 @@ JOBS = [
 # "join returns only after the function has returned ... and yields exactly that value" and are part of this check
 import units.c12 as _c12
 JOBS += [j for j in _c12.JOBS if j.name in ("c12.entry_point_1", "c12.entry_point_2", "c12.cleanup", "c12.join_1", "c12.join", "c12.tryjoin")]
+# the public API functions are one-line forwarders to the bodies under contract: checked mechanically (DESIGN §3.5b)
+from units.common_forward import forward_job
+JOBS = list(JOBS) + [forward_job("c01")]
 META = {
  "level": "proof",
  "level_text": "Contracts on the real creation path (attribute objects, myth_create_ex_body for NULL/any attribute and NULL/any id, child-first and parent-first, myth_create_1, myth_entry_point, myth_exit_body, myth_join_1): the start function is invoked exactly once with the supplied argument, its value is stored before the thread finishes, a new thread is published only when complete, the parent only after its context is saved. The finish/join protocol is proved in unit C12.",
